@@ -35,6 +35,7 @@ func H_c06_first() {
 	t.EventsList = append(t.EventsList, verifMarker(1), verifMarker(2))
 	c := verifAddClient(t, "x", false)
 	other := verifAddClient(t, "op", true)
+	other.Username = "op1" // an operator of the profile is logged in on another connection
 
 	var pk packager.Package
 	users := []string{"op1", "op2", "ghost", ""}
@@ -99,6 +100,9 @@ func H_c06_first() {
 		}
 		verif_assert(len(frames) <= 1, "an unauthenticated connection receives at most the one error reply")
 		verif_assert(len(verifFramesTo(other)) == 0, "a rejected handshake is not announced to the operators")
+		_, still := t.Clients.Load("op")
+		verif_assert(still, "a rejected handshake does not remove a logged-in operator, whatever user it names")
+		verif_assert(other.Authenticated, "a rejected handshake leaves logged-in operators authenticated")
 	}
 	verif_no_locks_held("handshake leaves no client mutex held")
 	verif_witness()
